@@ -744,6 +744,18 @@ var longScenarios = []longScenario{
 	{"two +32767 jumps per interval, 270 reports", []int64{32767, 32767}, false, 270},
 	{"three +32767 jumps per interval (98301 packets expected), 180 reports", []int64{32767, 32767, 32767}, false, 180},
 	{"+5000,+5000 then the late number highest-1, 600 reports", []int64{5000, 5000}, true, 600},
+	// 2^24 or more packets lost within ONE interval (the cumulative count must saturate, not wrap), and two
+	// intervals of about 9.8 million each
+	{"520 packets each +32767 ahead in one interval, 3 reports", repeat(32767, 520), false, 3},
+	{"300 jumps of +32767 per interval, 3 reports", repeat(32767, 300), false, 3},
+}
+
+func repeat(v int64, n int) []int64 {
+	out := make([]int64, n)
+	for i := range out {
+		out[i] = v
+	}
+	return out
 }
 
 func longRun(c config) (*hk.Violation, int64, string) {
@@ -1002,7 +1014,7 @@ func init() {
 			"jitter: timestamp step {0,+3000,-3000,+2^31-1,+1,-2^30} x arrival step {0,10 ms,33.333333 ms,1 s} plus duplicate/late packets; " +
 			"sender reports: four NTP values, another bound SSRC, an unbound SSRC, a compound packet, clock steps; mixed and two-stream product alphabets), " +
 			"from sequence starts {0,65534,65535} and RTP timestamp starts {0, 2^32-3000, 2^31-1500} at clock rates {90000, 8000, 48000}; " +
-			"plus four scripted long histories (hundreds of reports, hundreds of sequence cycles, cumulative loss beyond 2^24, intervals of up to 98301 packets). " +
+			"plus six scripted long histories (hundreds of reports, hundreds of sequence cycles, cumulative loss beyond 2^24 - also within a single interval -, intervals of up to 98301 packets). " +
 			"Every report block written to the RTCP writer is marshalled, decoded by the harness's own decoder and compared field by field with an RFC 3550 6.4.1/A.3/A.8 reference on unwrapped numbers " +
 			"with exact rational arithmetic (jitter and DLSR within +-1 of the floor of the exact value). " +
 			"A transition is non-trivial if it writes a report after at least one packet with loss, jitter, a cycle or a sender report in the history; states are distinct by deep hash of interceptor + reference + clock",
